@@ -131,9 +131,28 @@ def generate(template_path, repo):
         return out
     tl = load(template_path)
     i = 0
+    captures = {}
     while i < len(tl):
         line = tl[i]
+        for cn, cv in captures.items():
+            if '{{' + cn + '}}' in line:
+                line = line.replace('{{' + cn + '}}', cv)
+                tl[i] = line
         s = line.strip()
+        if s.startswith('//@capture'):
+            # //@capture NAME file=<rel> :: <python regex with one group>  -> {{NAME}} = group(1) of the unique match
+            m = re.match(r'//@capture\s+(\w+)\s+file=(\S+)\s*::\s*(.*)$', s)
+            if not m:
+                raise AnchorLost('bad capture directive: ' + s)
+            src = source(m.group(2))
+            found = list(re.finditer(m.group(3), src.text, re.S))
+            if len(found) != 1:
+                raise AnchorLost('capture %s: regex matched %d times in %s (need exactly 1)' % (m.group(1), len(found), m.group(2)))
+            captures[m.group(1)] = ' '.join(found[0].group(1).split())
+            g.rewrites.append({'where': 'capture ' + m.group(1) + ' (' + m.group(2) + ')', 'old': found[0].group(0)[:200], 'new': '{{%s}} = %s' % (m.group(1), captures[m.group(1)]), 'count': 1})
+            g.emit('// ---- captured from %s: %s = %s ----' % (m.group(2), m.group(1), captures[m.group(1)]))
+            i += 1
+            continue
         if s.startswith('//@include'):
             rel = s.split(None, 1)[1].strip()
             p = os.path.join(VERUS_DIR, rel)
@@ -153,6 +172,9 @@ def generate(template_path, repo):
             mode = None
             i += 1
             while i < len(tl) and tl[i].strip() != '//@end':
+                for cn, cv in captures.items():
+                    if '{{' + cn + '}}' in tl[i]:
+                        tl[i] = tl[i].replace('{{' + cn + '}}', cv)
                 t = tl[i].strip()
                 if t.startswith('//@spec'):
                     mode = 'spec'
